@@ -9,6 +9,7 @@ import Mathlib.Tactic.FieldSimp
 import Mathlib.Tactic.Linarith
 import Mathlib.Tactic.Positivity
 import Mathlib.Tactic.NormNum
+import Mathlib.Tactic.FinCases
 import Mathlib.Analysis.SpecialFunctions.Exp
 /-
 Helper lemmas for C04: the model's recursive sums are `Finset` sums; algebra of one
@@ -213,6 +214,22 @@ theorem writeBack1_scale (k : α) (hk : 0 < k) (F V xh K mol : α) :
 theorem chemSplit_scale (k mol V : α) :
     chemSplit (k * mol) V = (k * (chemSplit mol V).1, k * (chemSplit mol V).2) := by
   simp only [chemSplit, Prod.mk.injEq]; constructor <;> ring
+
+
+/-! ## A concrete exact fixed point of the iteration (non-vacuity witness used by Props/C04.lean) -/
+
+def exZ : Fin 2 → ℚ := fun _ => 1/2
+def exPsat : Fin 2 → ℚ := fun i => if i = 0 then 2 else 1/2
+def exS : St 2 ℚ := { x := fun i => if i = 0 then 1/3 else 2/3, V := 1/2, K := exPsat }
+
+theorem exS_fixed :
+    iterMap false 0 exZ (fun i => 1 * exPsat i / 1) (fun _ _ => 1) (fun _ _ => 1) (fun K _ => rr2Nv exZ K) exS = exS := by
+  have hK : newK (0 : ℚ) (fun i => 1 * exPsat i / 1) (fun _ : Fin 2 => (1 : ℚ)) (fun _ => 1) = exPsat := by
+    funext i; fin_cases i <;> simp [newK, newK1, exPsat]
+  have hV : rr2Nv exZ exPsat = 1/2 := by
+    simp [rr2Nv, rr2N, exZ, exPsat]; norm_num
+  simp only [iterMap, iterStep, hK, Bool.false_eq_true, if_false, hV, exS, St.mk.injEq, and_true]
+  funext i; fin_cases i <;> simp [xOfV, exZ, exPsat] <;> norm_num
 
 
 end ThermoVerif.Flash
